@@ -132,8 +132,9 @@ def seekfirst(ctx):
                 continue
             n_raw += 1
             in_sector = peel(f.d.get("impl_self", {})).get("adt") == sector_adt
-            if in_sector or f.path in allowed:
-                res.ok({"function": f.path, "raw_backend_io": raw, "allowed_as": "Sector method" if in_sector else tbl["raw_backend_io_allowed"][f.path]})
+            owner = re.sub(r"(::\{closure#\d+\})+$", "", f.path)       # a closure belongs to the function it is written in
+            if in_sector or f.path in allowed or owner in allowed:
+                res.ok({"function": f.path, "raw_backend_io": raw, "allowed_as": "Sector method" if in_sector else tbl["raw_backend_io_allowed"][owner]})
             else:
                 res.fail(Finding("R-SEEKFIRST", "R-SEEKFIRST/%s/raw-backend-io/%s" % (f.path, c.name),
                                  "%s outside Sector and outside the listed seek helpers: the transfer would happen at whatever position the backend happens to have" % raw, f, t["span"]))
@@ -389,6 +390,33 @@ def kindkeep(pid):
                     res.fail(Finding(res.rule, key + "/kind-dropped", "the error of %s (line %d) is replaced through %s by a newly built io::Error that does not carry the original kind(): an ErrorKind::Interrupted from the backend no longer reaches read_exact/write_all/io::copy as Interrupted, so a transfer that would have been retried fails" % (src.name.split("::")[-1], src.line, short), f, c.term["span"]))
                 else:
                     res.ok({"function": f.path, "call": src.name.split("::")[-1], "through": short, "kind_preserved": keeps or not builds}, nontrivial=True)
+        # the same thing written as a match (or a combinator lowered to one): `Err(e) => Err(io::Error::other(format!(.., e)))`
+        for f in ctx.fx.fns.values():
+            if f.kind == "closure":
+                continue
+            v = view(ctx, f)
+            pr = _Prov(f)
+            backs = [c2 for c2 in v.calls.values() if c2.kind == "call" and not c2.term["dest"]["proj"] and ctx.cg.call_effects(c2) & {"io_read", "io_write", "io_seek", "io_flush"}]
+            if not backs:
+                continue
+            for bb, c in sorted(v.calls.items()):
+                if not _re.search(r"io::(error::)?Error::(other|new)$|^std::io::Error::(other|new)$", c.name) or not c.term["args"]:
+                    continue
+                ps = " ".join(pr.operand(a) for a in c.term["args"])
+                from prov import guards as _g
+                here = _g(ctx, f).atoms_at(("t", bb))
+                for c2 in backs:
+                    r = pr.local(c2.term["dest"]["local"])
+                    # built from the error's payload, or built inside the Err arm of the call's result
+                    if len(r) > 8 and (("err(%s" % r[:80]) in ps or ("%s is Err" % r) in here):
+                        n += 1
+                        keeps = ("Error::kind(err(%s" % r[:60]) in ps
+                        key = "R-KINDKEEP/%s/%s" % (f.path, c2.name.split("::")[-1])
+                        if keeps:
+                            res.ok({"function": f.path, "call": c2.name.split("::")[-1], "through": "match", "kind_preserved": True}, nontrivial=True)
+                        else:
+                            res.fail(Finding(res.rule, key + "/kind-dropped", "the error of %s (line %d) is replaced by a newly built io::Error (line %d) that does not carry the original kind(): an ErrorKind::Interrupted from the backend no longer reaches read_exact/write_all/io::copy as Interrupted, so a transfer that would have been retried fails" % (c2.name.split("::")[-1], c2.line, c.line), f, c.term["span"]))
+                        break
         res.floor("re-wrapped backend errors", n, 0)
         res.notes.append("expected count on the reference tree: 0 (no backend error is re-wrapped); the kept seeded change C18-3 is the positive example exercised by the thorough tier")
         return res
